@@ -14,7 +14,7 @@ import numpy as np
 import torch
 import torch.nn.functional as F
 
-from ..kernel import World, stream
+from ..kernel import World, stream, scribble
 from ..models.synapse import closed_current, synapse_ctor
 
 DTS = [1.0, 0.5, 0.25, 2.0, 0.1, 1.3]
@@ -263,8 +263,11 @@ class ConnectionWorld(World):
             elif name == "step":
                 sp, inj = self._inputs(cfg, op)
                 args = [sp] + ([inj] if inj is not None else [])
+                given = [a.clone() for a in args]
                 with ctx.impl("forward", facts):
-                    out = conn(*args)
+                    out = conn(*given)
+                if len(events) % 2 == 0:
+                    scribble(ctx, given)
                 ctx.step(1, dt)
                 events.append((sp.to(torch.float64).numpy(), None if inj is None else inj.to(torch.float64).numpy()))
                 nsp += int(sp.any())
@@ -561,8 +564,11 @@ class ConnectionWorld(World):
             sp, inj = self._inputs(cfg, op)
             args = [sp] + ([inj] if inj is not None else [])
             with ctx.impl("forward", facts):
-                outA = A(*[a.clone() for a in args])
-                outB = Bc(*[a.clone() for a in args])
+                givenA, givenB = [a.clone() for a in args], [a.clone() for a in args]
+                outA = A(*givenA)
+                outB = Bc(*givenB)
+                if len(histB_cur) % 2 == 0:
+                    scribble(ctx, givenA + givenB)
             ctx.step(1, dt)
             nsp += int(sp.any())
             histB_cur.insert(0, _f64(Bc.synapse.current))
